@@ -51,7 +51,10 @@ def run(chk):
           got = [kb(getattr(rngs2, e['name'])())]
         elif e['op'] == 'split':
           only = tuple(e['only'])
-          backups = nnx.split_rngs(rngs, splits=2, only=nnx.Any(*only) if len(only) > 1 else only[0])
+          flt = nnx.Any(*only) if len(only) > 1 else only[0]
+          backups = nnx.split_rngs(rngs, splits=1, only=flt, squeeze=True) if e.get('sq') else nnx.split_rngs(rngs, splits=2, only=flt)
+        elif e['op'] == 'sqdraw':
+          got = [kb(getattr(rngs, e['name'])())]
         elif e['op'] == 'splitdraw':
           other = [nme for nme in beh['streams0'] if getattr(getattr(rngs, nme).key, 'shape', ()) == ()]
           axes = nnx.StateAxes({nnx.Any(*[nme for nme in beh['streams0'] if nme not in other]): 0, ...: None}) if other else 0
